@@ -67,9 +67,21 @@ def make_case(rng, tier):
     key = gkeys.key(rng.randrange(8)) if rng.random() < 0.7 else gkeys.rand_key(rng)
     dl = rng.choice(DATA_LENS[tier])
     data = rng.randbytes(dl) if dl < 2000 else (rng.randbytes(997) * (dl // 997 + 1))[:dl]
-    style = rng.choice(["gnupg", "random", "random", "long"])
+    if rng.random() < 0.35:
+        # canonical JSON text as payload (LF line ends, as every real payload has)
+        data = canonjson.canon(jsonvals.rand_value(rng, 0, 3, 3) if dl < 2000 else {"k": ["v"] * (dl // 12)})
+    style = rng.choice(["gnupg", "gnupg_sigtype", "gnupg_sigtype", "v4prefix", "random", "long"])
     if style == "gnupg":
         hdr = openpgp.gnupg_style_header(rng.randbytes(20), rng.randrange(2**32))
+    elif style == "gnupg_sigtype":
+        # same layout as GnuPG writes, other signature type / algorithm bytes (text-mode 0x01, standalone 0x02, certifications ...)
+        h = bytearray(openpgp.gnupg_style_header(rng.randbytes(20), rng.randrange(2**32)))
+        h[1] = rng.choice([0x01, 0x01, 0x02, 0x10, 0x13, 0x18, 0x1F, 0x20, 0x28, 0x30, 0x40, 0x50, 0xFF])
+        if rng.random() < 0.3:
+            h[3] = rng.choice([0x02, 0x09, 0x0A, 0x0B])
+        hdr = bytes(h)
+    elif style == "v4prefix":
+        hdr = bytes([0x04, rng.randrange(256), rng.randrange(256), rng.randrange(256)]) + rng.randbytes(rng.choice([0, 2, 30]))
     else:
         hl = rng.choice(HDR_LENS[tier]) if style == "long" else rng.choice([1, 2, 3, 34, 35, 70])
         hdr = rng.randbytes(hl) if hl < 5000 else (rng.randbytes(991) * (hl // 991 + 1))[:hl]
